@@ -1135,6 +1135,10 @@ class ServiceInstance:
         self._task.cancel()
         asyncio.create_task(wait_cancelled(self._task))
         self._task = None
+        # a stopped instance must not answer FindService any more (the offer task
+        # only clears this once its cancellation is delivered, and not at all if it
+        # has already finished)
+        self._can_answer_offers = False
 
         # cyclic tasks send stop when they are cancelled
         if not self.timings.CYCLIC_OFFER_DELAY:
